@@ -63,14 +63,19 @@ TABLE = {
                      "and exception-aborted evaluations over a pool of two queries sharing variables; each history is replayed "
                      "with generated G1/G2 programs and TLC judges every evaluation against the denotation irrespective of its "
                      "position; duplicate-listing domains must answer the same on first and later evaluations; a before/after "
-                     "snapshot of user lists and objects must be unchanged.",
+                     "snapshot of user lists and objects must be unchanged; pairs of queries over three shared variables that "
+                     "compare variables directly; the cache mechanism model (EQLMech3) must predict the exact rows of every full "
+                     "evaluation of a history, restarting from empty caches after an unfinished one.",
                 technique="TLA+ session machine (EvalSession) histories exported by TLC + replay with fault injection into user predicates + TLC trace validation against EQLSem",
                 ref="7 C04"),
     "C05": dict(text="Every generated program is built twice and evaluated under both cache configurations, first evaluation and "
                      "re-evaluations, and with the configuration switched under a live expression object; TLC judges every "
                      "evaluation against the denotation and requires equal row sets; runs without cache retrievals do not "
-                     "count as non-trivial.",
-                technique="TLA+ denotational spec + TLC-generated programs replayed under both cache configurations + TLC trace validation",
+                     "count as non-trivial. Query construction is a step of the history (built under caching off, evaluated "
+                     "under caching on). TLC also model-checks the mechanism model of the operator caches (EQLMech3: first "
+                     "evaluation and re-evaluation equal the denotation; with the code's incomplete index descent it derives "
+                     "finding F2) and the trace specification requires that model to predict every cached evaluation's exact rows.",
+                technique="TLA+ denotational spec + mechanism model of the operator caches (EQLMech3) model checked by TLC + TLC-generated programs and build/configure/evaluate histories replayed + TLC trace validation",
                 ref="7 C05"),
     "C10": dict(text="TLC's builder machine generates for_all(u, c) / for_all(u.n, c) with every condition tree over leaves on the "
                      "universal variable, the free variable or both, alone or conjoined with outer conditions; each is executed "
